@@ -696,10 +696,18 @@ class C20:
             add_v('cli-dir-aborted', f'cli-dir-aborted/{mode}', 'returns after converting what can be converted', status, stderr=se[:200])
         targets = set()
         failed_expected = 0
+        out_count = {}
+        for p, (out, ref) in expect.items():
+            out_count[out] = out_count.get(out, 0) + 1
         for p, (out, ref) in expect.items():
             targets.add(out)
             if out in expect:
                 continue        # the output is itself an input (pathological naming); skip content check
+            if out_count[out] > 1:
+                # two inputs of one stem in one directory (a.krn and a.kern, possibly created by an earlier conversion or dump)
+                # convert onto the same output file: which one wins is not defined by C20
+                bump(probes, 'dir_mode_output_collision')
+                continue
             if fs.get(p) is None:
                 bump(probes, 'input_vanished_during_dir_mode')      # the actor removed it between two listings
                 continue
